@@ -1,9 +1,187 @@
-(* Props/C01.v — statements only (grows as the parser proofs land). *)
-From Coq Require Import ZArith QArith String List.
-From PT Require Import Formula FormulaAlg.
-Open Scope Q_scope.
+(* Props/C01.v — statements only.  Definitions used in the statements:
+   Spec/Grammar.v      derivation trees (elem, sep, group = GImp | GExp, comp, cstring), render, sem_comp,
+                       leaves_cnt, leaves_charge  (written from doc/sphinx/guide/formula_grammar.rst)
+   Model/Pyparse.v     p_compound, at_end, pres = POk | PFail | PAbort  (transcription of formula_grammar)
+   Model/TableEnv.v    parse_compound, the_ptable
+   Proofs/C01Wf.v      wfb (boolean well-formedness of a tree w.r.t. a table), v_comp, v_dens
+   Proofs/C01Consume.v accepted, bal (parenthesis depth)
+   Proofs/C01Reject.v  bpos / r_pos / wf_pos (a prefix of a well-formed string that ends just before an
+                       element, at any nesting depth), lex_elem
+   Proofs/C01Proofs.v  dens_spec, the example trees *)
+From Coq Require Import ZArith QArith String Ascii List Bool.
+From PT Require Import Str Dec Py Loaders Formula FormulaMachine AtomEnv Pyparse TableEnv Grammar FormulaAlg.
+From PT Require Import C01Lex C01Wf C01Sem C01Accept C01Consume C01Reject C01Proofs.
+Import ListNotations.
+Open Scope string_scope.
 
 (* the composition read off a parsed structure is the count-weighted sum over its nesting *)
-Theorem C01_structure_denotes_weighted_sum : forall s b, dget0 (count_atoms s) b == cnt_s b s.
+Theorem C01_structure_denotes_weighted_sum : forall s b, (dget0 (count_atoms s) b == cnt_s b s)%Q.
 Proof. exact count_atoms_spec. Qed.
 Print Assumptions C01_structure_denotes_weighted_sum.
+
+(* ------------------------------------------------------------------ acceptance *)
+(* wfb is not vacuous: the guide's strings are renderings of well-formed trees *)
+Theorem C01_wf_examples :
+  (render ex_hydrate = "CaCO3+6H2O" /\ wfb the_ptable ex_hydrate = true) /\
+  (render ex_peg = "HO ((CH2)2O)6 H" /\ wfb the_ptable ex_peg = true) /\
+  (render ex_iso = "CaCO[18]3+(3HO1.5)2" /\ wfb the_ptable ex_iso = true) /\
+  (render ex_ion = "P{5+}O{2-}4 @1.5n" /\ wfb the_ptable ex_ion = true).
+Proof. exact examples_wf. Qed.
+Print Assumptions C01_wf_examples.
+
+(* every well-formed tree (any nesting depth, any table) is parsed completely, and the structure
+   returned has, for every atom, the count the documented reading assigns; the net charge and the
+   density tag likewise *)
+Theorem C01_accept : forall T t, wfb T t = true ->
+  exists st d lv,
+    p_compound T (render t) = POk (st, d) "" /\
+    sem_comp (t_symbol T) (c_comp t) = Some lv /\
+    (forall b, cnt_s b st == leaves_cnt lv b)%Q /\
+    (fweight (fun a => inject_Z (aq a)) (FGroup st) == leaves_charge lv)%Q /\
+    dens_spec t d.
+Proof. exact accept. Qed.
+Print Assumptions C01_accept.
+
+(* the same, with the structure given explicitly and with any closing text after it *)
+Theorem C01_accept_structure : forall T t rest, wfb T t = true -> tail_ok rest = true ->
+  p_compound T (render t ++ rest) = POk (v_comp T (c_comp t), v_dens (c_density t)) rest.
+Proof. exact compound_accept_rest. Qed.
+Print Assumptions C01_accept_structure.
+
+(* the Formula object: .atoms, .charge and .density are those of the documented reading *)
+Theorem C01_accept_formula : forall E T t, wfb T t = true ->
+  exists f lv,
+    parse_compound E T (render t) = Some (ROk f) /\
+    sem_comp (t_symbol T) (c_comp t) = Some lv /\
+    (forall b, dget0 (f_atoms f) b == leaves_cnt lv b)%Q /\
+    (f_charge f == leaves_charge lv)%Q /\
+    match c_density t with
+    | None => f_density f = init_density E (f_struct f) None None
+    | Some (_, txt, m) =>
+        exists q, parse_dec txt = Some q /\
+                  f_density f = match m with
+                                | Some ch => if Ascii.eqb ch "n"
+                                             then Some (q / natural_mass_ratio E f)%Q
+                                             else Some q
+                                | None => Some q
+                                end
+    end.
+Proof. exact accept_formula. Qed.
+Print Assumptions C01_accept_formula.
+
+(* the two unambiguity clauses of wfb cannot be dropped: trees that violate only them are parsed
+   to a different composition than the documented reading of the tree ("H2O" as H.2O, "2HO" as
+   2H.O, "(HO)2O" as (HO).2O) *)
+Theorem C01_side_conditions_needed :
+  (forallb (fun p => wf_group the_ptable (snd p)) (c_comp amb_count) = true /\
+   forallb (fun p => wf_group the_ptable (snd p)) (c_comp amb_imp) = true /\
+   forallb (fun p => wf_group the_ptable (snd p)) (c_comp amb_exp) = true) /\
+  count_of the_ptable amb_count (mkAtom 1 0 0) = Some (2, 1)%Q /\
+  count_of the_ptable amb_imp (mkAtom 8 0 0) = Some (2, 1)%Q /\
+  count_of the_ptable amb_exp (mkAtom 1 0 0) = Some (2, 1)%Q.
+Proof. exact side_conditions_needed. Qed.
+Print Assumptions C01_side_conditions_needed.
+
+(* ------------------------------------------------------------------ rejection *)
+(* accepted = parse_compound returns a formula; an abort is the exception of that kind *)
+Theorem C01_accepted_iff_formula : forall E T s,
+  accepted T s <-> exists f, parse_compound E T s = Some (ROk f).
+Proof. exact accepted_iff_formula. Qed.
+Print Assumptions C01_accepted_iff_formula.
+
+Theorem C01_abort_is_exception : forall E T s e,
+  p_compound T s = PAbort e -> parse_compound E T s = Some (RErr e).
+Proof. exact abort_is_exception. Qed.
+Print Assumptions C01_abort_is_exception.
+
+(* an unknown symbol at ANY element position of an otherwise well-formed string (inside any number of
+   open parentheses, after any well-formed groups), whatever follows: ValueError *)
+Theorem C01_reject_unknown_symbol : forall T P sym Z, wf_pos T P = true ->
+  is_symbol sym = true -> t_symbol T sym = None -> hdp notlower Z = true ->
+  p_compound T (r_pos P ++ sym ++ Z) = PAbort ValueErr.
+Proof. exact unknown_symbol_aborts. Qed.
+Print Assumptions C01_reject_unknown_symbol.
+
+(* an isotope the element does not have, at any such position: KeyError *)
+Theorem C01_reject_undefined_isotope : forall T P e z n v Z, wf_pos T P = true ->
+  lex_elem e = true -> t_symbol T (el_sym e) = Some (z, 0%Z) ->
+  el_iso e = Some n -> parse_int n = Some v -> t_has_iso T z v = false -> hdp nf_elem Z = true ->
+  p_compound T (r_pos P ++ r_elem e ++ Z) = PAbort KeyErr.
+Proof. exact undefined_isotope_aborts. Qed.
+Print Assumptions C01_reject_undefined_isotope.
+
+(* an isotope tag on D or T: TypeError *)
+Theorem C01_reject_isotope_of_isotope : forall T P e z a0 n Z, wf_pos T P = true ->
+  lex_elem e = true -> t_symbol T (el_sym e) = Some (z, a0) -> a0 <> 0%Z ->
+  el_iso e = Some n -> hdp nf_elem Z = true ->
+  p_compound T (r_pos P ++ r_elem e ++ Z) = PAbort TypeErr.
+Proof. exact isotope_of_isotope_aborts. Qed.
+Print Assumptions C01_reject_isotope_of_isotope.
+
+(* a charge the element does not list: ValueError *)
+Theorem C01_reject_undefined_charge : forall T P e z a0 q Z, wf_pos T P = true ->
+  lex_elem e = true -> t_symbol T (el_sym e) = Some (z, a0) ->
+  match el_iso e with
+  | None => True
+  | Some n => a0 = 0%Z /\ exists v, parse_int n = Some v /\ t_has_iso T z v = true
+  end ->
+  el_ion e <> None -> ion_val (el_ion e) = Some q -> t_has_ion T z q = false -> hdp nf_elem Z = true ->
+  p_compound T (r_pos P ++ r_elem e ++ Z) = PAbort ValueErr.
+Proof. exact undefined_charge_aborts. Qed.
+Print Assumptions C01_reject_undefined_charge.
+
+Theorem C01_reject_unknown_symbol_example : p_compound the_ptable "H2(O2Xx3)3O" = PAbort ValueErr.
+Proof. exact unknown_symbol_nested. Qed.
+Print Assumptions C01_reject_unknown_symbol_example.
+
+(* parentheses: for ALL strings, acceptance implies balanced parentheses *)
+Theorem C01_reject_unbalanced : forall T s, accepted T s -> bal 0 s = Some 0%nat.
+Proof. exact accepted_balanced. Qed.
+Print Assumptions C01_reject_unbalanced.
+
+(* so a single parenthesis inserted anywhere into an accepted string is rejected *)
+Theorem C01_reject_paren_inserted : forall T a b, accepted T (a ++ b) ->
+  ~ accepted T (a ++ "(" ++ b) /\ ~ accepted T (a ++ ")" ++ b).
+Proof. exact paren_inserted_rejected. Qed.
+Print Assumptions C01_reject_paren_inserted.
+
+Theorem C01_reject_unmatched_paren : forall T t, wfb T t = true ->
+  ~ accepted T (render t ++ ")") /\ ~ accepted T ("(" ++ render t) /\
+  ~ accepted T (render t ++ "(") /\ ~ accepted T (")" ++ render t).
+Proof. exact unmatched_paren_rejected. Qed.
+Print Assumptions C01_reject_unmatched_paren.
+
+(* '@' not followed by a number *)
+Theorem C01_reject_at_without_number : forall T l ws Y, wf_comp T l = true -> all_chars is_blank ws = true ->
+  (forall q r, p_number Y <> POk q r) ->
+  ~ accepted T (r_comp l ++ ws ++ "@" ++ Y).
+Proof. exact at_without_number_rejected. Qed.
+Print Assumptions C01_reject_at_without_number.
+
+(* a count with a leading zero directly after a symbol.
+   Full statement aimed at: for every well-formed tree t without density tag whose last element
+   carries no count, and every digit d:  ~ accepted T (render t ++ "0" ++ String d Z).
+   Proved for trees that consist of one implicit group (any count, any elements before); the general
+   case needs the follow-set conditions of C01Accept restated semantically (p_count rest = POk 1 rest)
+   instead of by first character, because '0' is a digit. *)
+Theorem C01_reject_leading_zero_partial : forall T c es0 elast d Z,
+  wf_group T (GImp c (es0 ++ [elast])) = true -> el_cnt elast = None -> is_digit d = true ->
+  ~ accepted T (r_group (GImp c (es0 ++ [elast])) ++ "0" ++ String d Z).
+Proof. exact leading_zero_rejected_partial. Qed.
+Print Assumptions C01_reject_leading_zero_partial.
+
+(* ------------------------------------------------------------------ determinism facts *)
+Theorem C01_rest_is_proper_suffix : forall T s v r, p_compound T s = POk v r ->
+  (exists pre, s = pre ++ r) /\ (String.length r < String.length s)%nat.
+Proof. exact rest_is_proper_suffix. Qed.
+Print Assumptions C01_rest_is_proper_suffix.
+
+Theorem C01_fuel_independent : forall T s fuel, (String.length s < fuel)%nat ->
+  p_composite T fuel s = p_composite T (S (String.length s)) s.
+Proof. exact p_composite_fuel. Qed.
+Print Assumptions C01_fuel_independent.
+
+Theorem C01_fuel_independent_elements : forall T s fuel, (String.length s <= fuel)%nat ->
+  p_more_elements T fuel s = p_more_elements T (String.length s) s.
+Proof. exact p_more_elements_fuel. Qed.
+Print Assumptions C01_fuel_independent_elements.
